@@ -1198,7 +1198,7 @@ fn main() {
     let caps_arg = kverif::arg_str(&a, "caps", "0,1,2,u").to_string();
     let caps: Vec<Option<usize>> = caps_arg.split(',').map(parse_cap).collect();
     std::panic::set_hook(Box::new(|_| {}));
-    payload::init(1 << 12);
+    payload::init(if cfg!(miri) { 1 << 10 } else { 1 << 12 });
     kverif::fp::install();
     let hits0 = kverif::fp::hits();
     let t0 = std::time::Instant::now();
